@@ -41,6 +41,8 @@ func init() {
 			return map[string]int64{"decode:accept": 1000, "decode:reject:>=n": 500, "decode:reject:length": 200, "decode:reject:empty": 6, "encode": 1000, "hex:invalid": 3}
 		},
 	})
+
+	Registry["C07"].ColdStart = func(c *mon.Ctx) { c07RunConc(c, c.Seed*7919+uint64(c.Shard)+1) }
 }
 
 func c07Generate(c *mon.Ctx) {
@@ -56,6 +58,25 @@ func c07Generate(c *mon.Ctx) {
 	}
 
 	c.Structured(func() any { return &c07Case{Kind: "decode", Nil: true, Class: "nil"} })
+
+	// lengths that equal 32 modulo 256 / 65536, starting with a canonical scalar
+	for _, extra := range []int{256, 512, 768, 1024, 65536} {
+		for _, fill := range []byte{0, 0xff} {
+			in := mon.H(append(oracle.Bytes32(big.NewInt(0xabcdef)), bytes.Repeat([]byte{fill}, extra)...))
+			c.Structured(func() any { return &c07Case{Kind: "decode", In: in, Class: "len-wrap"} })
+		}
+	}
+
+	// every byte value at a few positions of a valid 64-digit hex string
+	hbase := mon.H(oracle.Bytes32(big.NewInt(0x123456789abcdef)))
+	for _, pos := range []int{0, 1, 31, 62, 63} {
+		for b := 0; b < 256; b++ {
+			bs := []byte(hbase)
+			bs[pos] = byte(b)
+			hs := string(bs)
+			c.Structured(func() any { return &c07Case{Kind: "hex", In: hs, Class: "hex-byte-sweep"} })
+		}
+	}
 
 	for _, v := range gen.Raw256(n) {
 		in, cl := mon.H(oracle.Bytes32(v.X)), v.Class
@@ -88,6 +109,9 @@ func c07Generate(c *mon.Ctx) {
 			return &c07Case{Kind: "decode", In: mon.H(oracle.Bytes32(v.X)), Class: v.Class}
 		}
 	})
+
+	// and again at the end of the shard, when the process has a history behind it
+	concBatches(c, c.N(4, 200), func(seed uint64) any { return &c07Case{Conc: seed + 50000} })
 }
 
 // error identities observed per rejection cause, to check distinctness / stability across the shard
